@@ -29,7 +29,7 @@ def is_const(s):
 
 
 # ---------------------------------------------------------------- generator
-def gen_ast(rng, size="small", stress=0.35, p_const=0.15, p_bb=0.5, p_assign=0.5, pardup=0.0):
+def gen_ast(rng, size="small", stress=0.35, p_const=0.15, p_bb=0.5, p_assign=0.5, pardup=0.0, p_cycle=0.0):
     """A random AST inside the documented subset (well-formed by construction unless weird > 0)."""
     pool = list(PLAIN)
     rng.shuffle(pool)
@@ -103,6 +103,15 @@ def gen_ast(rng, size="small", stress=0.35, p_const=0.15, p_bb=0.5, p_assign=0.5
             n = next(fresh)
             items.append(["gate", t, insts.pop(), [n] + ops])
             avail.append(n); driven.append(n)
+    if rng.random() < p_cycle and driven:
+        # a combinational loop / use of a later net: replace one net operand by any driven net (possibly the gate's own output)
+        gs = [it for it in items if it[0] == "gate" and any(not is_const(o) for o in it[3][1:])]
+        if gs:
+            g = rng.choice(gs)
+            idx = rng.choice([i for i in range(1, len(g[3])) if not is_const(g[3][i])])
+            g[3][idx] = rng.choice(driven)
+            if g[1] in ("xor", "xnor") and pardup == 0.0:
+                g[3][1:] = list(dict.fromkeys(g[3][1:]))
     used = set()
     for it in items:
         if it[0] == "gate":
